@@ -14,7 +14,7 @@ def config(tier):
         'level': 'fault_enumeration',
         'cases': 280 if tier == 'quick' else 2500,
         'budget_s': 55 if tier == 'quick' else 570,
-        'floors': {'cases': 30, 'crash_states': 1000,
+        'floors': {'cases': 30, 'crash_states': 1000, 'interrupt_states': 800,
                    'crash_states_after_first_mutation': 800,
                    'payloads_checked_for_info': 300,
                    'scenarios_exhaustive': 30},
@@ -24,7 +24,9 @@ def config(tier):
                 'cross-volume copy x 1-3 arguments); for EVERY mutating '
                 'file-system event k of the reference run (and the end) an '
                 'identical fresh world is run with _exit before event k and '
-                'the on-disk state judged; thorough adds real SIGKILLs at '
+                'the on-disk state judged, and once more with KeyboardInterrupt '
+                '(SIGINT as Python delivers it) raised when event k returns, '
+                'so that the program\'s own clean-up handlers run; thorough adds real SIGKILLs at '
                 'random instants; non-trivial = crash point at or after the '
                 'first mutating event; distinct = (scenario, k)',
         'assumptions': ['crash points are Python-level call boundaries = '
@@ -223,6 +225,31 @@ def run_case(case):
             judge_state(case, wk, a0, a1, des, 'before event %d' % k, out, rk)
             ev = rk.crash
             obs['crash_before_' + ev['op']] = obs.get('crash_before_' + ev['op'], 0) + 1
+        finally:
+            wk.destroy()
+        if len(out['violations']) > 3:
+            break
+        # ---- the catchable kill: SIGINT (Ctrl-C) arriving during system
+        # call k is seen by Python as KeyboardInterrupt when the call returns;
+        # whatever clean-up handlers then run must leave a legal state too
+        wk, rk, a0, a1 = sc.execute({'interrupt_after': k})
+        try:
+            if rk.timeout:
+                out['verdict'] = 'inconclusive'
+                out['why'] = 'watchdog after interrupt at %d' % k
+                return out
+            why = (rk.crash or {}).get('why')
+            if why == 'interrupt-skipped':
+                obs['interrupt_on_failing_call_skipped'] = \
+                    obs.get('interrupt_on_failing_call_skipped', 0) + 1
+            elif why != 'interrupt-after':
+                out['verdict'] = 'inconclusive'
+                out['why'] = 'interrupt point %d not reached (exit %s)' % (k, rk.exit)
+                return out
+            else:
+                obs['interrupt_states'] = obs.get('interrupt_states', 0) + 1
+            judge_state(case, wk, a0, a1, des, 'KeyboardInterrupt after event %d' % k,
+                        out, rk)
         finally:
             wk.destroy()
         if len(out['violations']) > 3:
